@@ -28,7 +28,7 @@ Hypothesis EO : env_ok E = true.
 
 Definition fc_stmt (m : msg) : Prop :=
   canon_msg E m = true ->
-  forall fuel b, pack_msg E m = Ok b -> zlen b <= 2147483647 -> (length b < fuel)%nat ->
+  forall fuel b, pack_msg E m = Ok b -> zlen b <= max_input -> (length b < fuel)%nat ->
   exists b', pack_msg (older keep E) (proj E keep m) = Ok b' /\ length b' = length b /\
     unpack (older keep E) fuel (m_desc m) b = Ok (proj E keep m) /\
     unpack E fuel (m_desc m) b' = Ok m /\
@@ -49,14 +49,14 @@ Proof.
     assert (SUB : forall v, (forall m', v = VMsg (Some m') -> fc_stmt m') ->
                   forall m', v = VMsg (Some m') ->
                     sub_tr E (older keep E) (unpack E k) (unpack (older keep E) k) (proj E keep)
-                           (Z.min 2147483647 (Z.of_nat k)) m').
+                           (Z.min max_input (Z.of_nat k)) m').
     { intros v Q m' Hv Cm' b0 Hb0 Hlt.
       destruct (Q m' Hv Cm' k b0 Hb0 ltac:(unfold zlen in *; lia) ltac:(unfold zlen in *; lia))
         as (b0' & B1 & B2 & B3 & B4 & B5 & B6 & B7).
       exists b0'. repeat split; try assumption; try (apply B5; assumption); try (apply B6; assumption). apply proj_desc. }
     assert (HS' : Forall (slot_all (fun v => forall m', v = VMsg (Some m') ->
                     sub_tr E (older keep E) (unpack E k) (unpack (older keep E) k) (proj E keep)
-                           (Z.min 2147483647 (Z.of_nat k)) m')) slots).
+                           (Z.min max_input (Z.of_nat k)) m')) slots).
     { rewrite Forall_forall in *. intros s Hs. specialize (HS s Hs). destruct s as [h v|n c [l|]|g]; cbn [slot_all] in *.
       - apply SUB. exact HS.
       - rewrite Forall_forall in *. intros v Hv. apply SUB. exact (HS v Hv).
@@ -64,7 +64,7 @@ Proof.
       - exact I. }
     assert (HU' : Forall (fun cv : Z * sval => forall m', snd cv = VMsg (Some m') ->
                     sub_tr E (older keep E) (unpack E k) (unpack (older keep E) k) (proj E keep)
-                           (Z.min 2147483647 (Z.of_nat k)) m') um).
+                           (Z.min max_input (Z.of_nat k)) m') um).
     { rewrite Forall_forall in *. intros cv Hcv. apply SUB. exact (HU cv Hcv). }
     cbn [canon_msg] in C. cbn [m_desc].
     destruct (nth_error E d) as [md|] eqn:Ed; [|discriminate C].
@@ -72,14 +72,14 @@ Proof.
     cbn [pack_msg] in Hpk. rewrite Ed in Hpk.
     destruct (pk_fields (pack_msg E) um (md_fields md) slots) as [a|e] eqn:Ea; [|discriminate Hpk].
     cbn [bind] in Hpk. inversion Hpk; subst b; clear Hpk.
-    assert (Hza : zlen a <= Z.min 2147483647 (Z.of_nat k)).
+    assert (Hza : zlen a <= Z.min max_input (Z.of_nat k)).
     { rewrite zlen_app in Hlen. rewrite app_length in Hfuel.
       pose proof (zlen_nonneg _ (concat (map pk_unknown unk))). unfold zlen in *. lia. }
     destruct (build_items E keep EO k d md Ed um (md_fields md) slots [] a eq_refl Cs HS' HU' Ea Hza)
       as (its & I1 & I2 & I3 & I4 & I5 & I6 & I7 & I8 & I9 & I10).
     cbn [length Nat.add filter] in I4, I7.
     assert (Hab : a = bytesA its) by exact I3.
-    assert (Hl : zlen (bytesA its ++ U unk) <= 2147483647) by (rewrite <- Hab; exact Hlen).
+    assert (Hl : zlen (bytesA its ++ U unk) <= max_input) by (rewrite <- Hab; exact Hlen).
     pose proof (older_parses E keep EO k d md Ed um unk its I1 I4 I5 I6 I7 Cn Cu Ck Hl) as PA.
     pose proof (newer_parses E keep EO k d md Ed um unk its I1 I4 I5 I6 I7 Cn Cu Ck Hl) as PC.
     pose proof (bytesB_length E keep EO k d md Ed um unk its I1 I4 I5 I6 I7 Cn) as PL.
@@ -112,7 +112,7 @@ End Fwd.
 (* ---------- C09 *)
 Theorem forward_compatible : forall (E : env) (keep : nat -> field -> bool) (m : msg) (b : list Z),
   env_ok E = true -> canon_msg E m = true ->
-  pack_msg E m = Ok b -> Z.of_nat (length b) <= 2147483647 ->
+  pack_msg E m = Ok b -> Z.of_nat (length b) <= max_input ->
   exists mo b',
     unpack_top (older keep E) (m_desc m) b = Ok mo /\
     pack_msg (older keep E) mo = Ok b' /\
@@ -129,7 +129,7 @@ Qed.
    descriptor is in the environment) known fields, then the retained records, then the own unknown fields *)
 Theorem forward_compatible_proj : forall (E : env) (keep : nat -> field -> bool) (m : msg) (b : list Z),
   env_ok E = true -> canon_msg E m = true ->
-  pack_msg E m = Ok b -> Z.of_nat (length b) <= 2147483647 ->
+  pack_msg E m = Ok b -> Z.of_nat (length b) <= max_input ->
   env_ok (older keep E) = true /\
   unpack_top (older keep E) (m_desc m) b = Ok (proj E keep m) /\
   canon_msg (older keep E) (proj E keep m) = true /\
@@ -153,7 +153,7 @@ Definition ex_keep (d : nat) (f : field) : bool :=
 Example forward_ex :
   exists b mo b',
     env_ok ex_env = true /\ canon_msg ex_env ex_msg = true /\
-    pack_msg ex_env ex_msg = Ok b /\ Z.of_nat (length b) <= 2147483647 /\
+    pack_msg ex_env ex_msg = Ok b /\ Z.of_nat (length b) <= max_input /\
     unpack_top (older ex_keep ex_env) 0 b = Ok mo /\ mo = proj ex_env ex_keep ex_msg /\
     length (m_unk mo) = 2%nat /\
     pack_msg (older ex_keep ex_env) mo = Ok b' /\ b' <> b /\ length b' = length b /\
